@@ -805,6 +805,41 @@ def rewrite_type_def(src, item, kw, keep_derives=KEEP_DERIVES):
                     else:
                         toks[k] = (tx[0], 'pub ' + tx[1], tx[2], tx[3])
                         made_pub += 1
+        if brace_open is None:
+            # tuple struct:  struct Name(T, U);  -> every field pub
+            par = None
+            for i, k in enumerate(code):
+                if toks[k][1] == '(':
+                    par = i
+                    break
+            if par is not None:
+                depth = 0
+                expect_field = False
+                for i in range(par, len(code)):
+                    k = code[i]
+                    tx = toks[k]
+                    if tx[0] == 'punct' and tx[1] in OPEN:
+                        depth += 1
+                        if depth == 1:
+                            expect_field = True
+                        continue
+                    if tx[0] == 'punct' and tx[1] in CLOSE:
+                        depth -= 1
+                        continue
+                    if tx[1] == '<':
+                        depth += 1
+                        continue
+                    if tx[1] == '>' and toks[code[i - 1]][1] != '-':
+                        depth -= 1
+                        continue
+                    if depth == 1 and tx[1] == ',':
+                        expect_field = True
+                        continue
+                    if depth == 1 and expect_field:
+                        expect_field = False
+                        if not (tx[0] == 'ident' and tx[1] == 'pub'):
+                            toks[k] = (tx[0], 'pub ' + tx[1], tx[2], tx[3])
+                            made_pub += 1
         if made_pub:
             rewrites.append(dict(rule='R6 visibility', line=src.line_of(src.tok(item['kw_ci'])[2]), what='%d fields made pub' % made_pub))
     text = ''.join(t[1] for k, t in enumerate(toks) if k not in skip and t[0] not in ('lcomment', 'bcomment') or (t[0] == 'ws'))
